@@ -191,17 +191,9 @@ void VariableManager::process_variable_assignment(const ASTNode *node) {
                           array_name.c_str());
 
                 // 多次元インデックスを収集
-                std::vector<int64_t> indices;
-                const ASTNode *current_node = node->right.get();
-                while (current_node &&
-                       current_node->node_type == ASTNodeType::AST_ARRAY_REF) {
-                    int64_t index = interpreter_->expression_evaluator_
-                                        ->evaluate_expression(
-                                            current_node->array_index.get());
-                    indices.insert(indices.begin(),
-                                   index); // 先頭に挿入（逆順になるため）
-                    current_node = current_node->left.get();
-                }
+                // インデックス式はソース上の順（左から右）に評価する
+                std::vector<int64_t> indices =
+                    extract_array_indices(node->right.get());
 
                 // インデックス情報をデバッグ出力
                 std::string indices_str;
